@@ -223,12 +223,20 @@ def run(ctx):
     det_runs = 0
     for i in range(ctx.scale(1, 6)):
         pws = gen_passwords.gen_list(rng, n=12)
+        hash_seeds = ('1', '77')
+        if i == 0:
+            # whatever the seed of the run: passwords on which more than one entry of a detector's table matches (two top-level domains,
+            # two context strings, keys of two keyboard layouts) - whichever entry is tried first decides the segmentation, so the
+            # order in which a table is walked must not depend on the interpreter's hash seed; six interpreters
+            pws = ['jsmith@yahoo.com.au', 'kate@bigpond.net.au', 'olga@mail.com.ru', 'www.shop.co.uk', 'http://news.org.uk/x', 'bob@x.de.com',
+                   'No.1dad#1', 'Mr.No.1', 'i<3u<3', 'qwer1qazйцук', 'monkey12', 'monkey12', 'Summer2019!', 'www.a.net.nl']
+            hash_seeds = ('0', '1', '2', '3', '4', '5')
         snap = common.snapshot()
         tf = os.path.join(root, f"det{i}.txt")
         with open(tf, 'wb') as f:
             f.write(('\n'.join(pws) + '\n').encode('utf-8'))
         trees = []
-        for seed in ('1', '77'):
+        for seed in hash_seeds:
             name = f"det{i}_{seed}"
             out, err, rc = common.run_cli('trainer.py', ['-r', name, '-t', tf, '-e', 'utf-8', '-c', '0.6'], stdin='devnull',
                                           env_extra={'PYTHONHASHSEED': seed}, timeout=300)
@@ -242,8 +250,10 @@ def run(ctx):
                         b = b'\n'.join(l for l in b.split(b'\n') if not l.startswith(b'uuid'))
                     tree[os.path.relpath(os.path.join(dd, fn), d)] = b
             trees.append(tree)
-        if trees[0] != trees[1] or not trees[0]:
-            bad = [k for k in set(trees[0]) | set(trees[1]) if trees[0].get(k) != trees[1].get(k)]
+        other = next((t for t in trees[1:] if t != trees[0]), None)
+        if other is not None or not trees[0]:
+            other = other if other is not None else {}
+            bad = [k for k in set(trees[0]) | set(other) if trees[0].get(k) != other.get(k)]
             viol.append({'property': 'C06', 'kind': 'training-not-deterministic', 'files': bad[:5], 'witness': {'passwords': pws}})
     cases += det_runs
     # 4. the command line itself: the coverage as typed (also 0, which argparse parses to a falsy value) must be the coverage of the
